@@ -186,7 +186,7 @@ def _r6(ctx, pkg):
                 if isinstance(x, ast.Attribute) and any(isinstance(p, ast.Call) and p.func is x for p in ast.walk(fn)):
                     continue        # counted once, at the call
                 n += 1
-                why = GLOBAL_READERS.get((f, qual))
+                why = GLOBAL_READERS.get((f, qual)) or next((w for (af, aq), w in GLOBAL_READERS.items() if af == f and _helper_of(pkg, qual, aq)), None)
                 ctx.check(why is not None, "R6", f"{qual}:reads {t}", (f, x.lineno), f"sanctioned reader: {why}" if why else
                           f"`{qual}` reads the process-global `{t}`: what it returns depends on the network that installed its lists last, not on this network "
                           "(render A, build B, render A again gives different files)",
@@ -460,6 +460,7 @@ def _global_writes(pkg):
                     tg = n.targets
                 elif isinstance(n, ast.AugAssign):
                     tg = [n.target]
+                tg = [e for t in tg for e in (t.elts if isinstance(t, (ast.Tuple, ast.List)) else [t])]      # a, b = x, y
                 for t in tg:
                     if isinstance(t, ast.Attribute) and t.attr in names and isinstance(t.value, ast.Name) and t.value.id in ("cls", "Species", "KROMEReaction", "chemistrydata"):
                         out.append((f, qual, n.lineno, t.value.id, t.attr, "assign"))
@@ -542,11 +543,12 @@ def discovered_state(ctx, pkg, rule="R3"):
             for n in ast.walk(fn):
                 cands = []
                 if isinstance(n, (ast.Assign, ast.AugAssign)):
-                    for t in (n.targets if isinstance(n, ast.Assign) else [n.target]):
-                        b = t
-                        while isinstance(b, ast.Subscript):
-                            b = b.value
-                        cands.append((b, b is not t, "assignment"))
+                    for t0 in (n.targets if isinstance(n, ast.Assign) else [n.target]):
+                        for t in (t0.elts if isinstance(t0, (ast.Tuple, ast.List)) else [t0]):
+                            b = t
+                            while isinstance(b, ast.Subscript):
+                                b = b.value
+                            cands.append((b, b is not t, "assignment"))
                 elif isinstance(n, ast.Call) and isinstance(n.func, ast.Attribute) and n.func.attr in STATE_MUTATORS:
                     b = n.func.value
                     while isinstance(b, ast.Subscript):
@@ -789,11 +791,20 @@ def _only_called_by_sanctioned(pkg, qual) -> bool:
 
 
 def _patch_restores(pkg):
+    """the patch renderer saves a COPY of the element list in a local before its temporary additions and hands that local back to
+    Species.set_known_elements afterwards (locals by role, not by name)"""
     fn = pkg.classes["EnzoPatch"].methods.get("render")
     if fn is None:
         return False
-    src = ast.unparse(fn)
-    return "known_elements = Species.known_elements().copy()" in src and "Species.set_known_elements(known_elements)" in src
+    saved = {}
+    for n in ast.walk(fn):
+        if isinstance(n, ast.Assign) and len(n.targets) == 1 and isinstance(n.targets[0], ast.Name):
+            v = "".join(ast.unparse(n.value).split())
+            if v in ("Species.known_elements().copy()", "list(Species.known_elements())", "Species.known_elements()[:]", "copy.copy(Species.known_elements())", "copy(Species.known_elements())"):
+                saved[n.targets[0].id] = n.lineno
+    restores = [n for n in ast.walk(fn) if isinstance(n, ast.Call) and ast.unparse(n.func) == "Species.set_known_elements" and len(n.args) == 1
+                and isinstance(n.args[0], ast.Name) and n.args[0].id in saved and saved[n.args[0].id] < n.lineno]
+    return bool(restores)
 
 
 # ------------------------------------------------------------------ R4 KROME directive state
@@ -803,16 +814,37 @@ def krome_reset(ctx, pkg, rule="R4"):
     ctx.saw(KR, "KROMEReaction.preprocessing")
     _, pre = pkg.resolve("KROMEReaction", "preprocessing")
     _, ini = pkg.resolve("KROMEReaction", "initialize")
+    def with_helpers(fn):
+        """the method and the private classmethods of the class it calls on cls (transitively): one body split in pieces"""
+        out, todo = [fn], [fn]
+        while todo:
+            x = todo.pop()
+            for c in ast.walk(x):
+                if isinstance(c, ast.Call) and isinstance(c.func, ast.Attribute) and isinstance(c.func.value, ast.Name) and c.func.value.id == "cls" and _private(c.func.attr):
+                    _, h = pkg.resolve("KROMEReaction", c.func.attr)
+                    if h is not None and not any(h is y for y in out):
+                        out.append(h)
+                        todo.append(h)
+        return out
     mutated = set()
-    for n in ast.walk(pre):
-        if isinstance(n, ast.Assign):
-            for t in n.targets:
-                if isinstance(t, ast.Attribute) and isinstance(t.value, ast.Name) and t.value.id == "cls":
-                    mutated.add(t.attr)
-        if isinstance(n, ast.Call) and isinstance(n.func, ast.Attribute) and n.func.attr in MUTATORS and isinstance(n.func.value, ast.Attribute) \
-                and isinstance(n.func.value.value, ast.Name) and n.func.value.value.id == "cls":
-            mutated.add(n.func.value.attr)
-    reset = {t.attr for n in ast.walk(ini) if isinstance(n, ast.Assign) for t in n.targets if isinstance(t, ast.Attribute) and isinstance(t.value, ast.Name) and t.value.id == "cls"}
+    for part in with_helpers(pre):
+        for n in ast.walk(part):
+            if isinstance(n, (ast.Assign, ast.AugAssign)):
+                for t in (n.targets if isinstance(n, ast.Assign) else [n.target]):
+                    for e in (t.elts if isinstance(t, (ast.Tuple, ast.List)) else [t]):
+                        if isinstance(e, ast.Attribute) and isinstance(e.value, ast.Name) and e.value.id == "cls":
+                            mutated.add(e.attr)
+            if isinstance(n, ast.Call) and isinstance(n.func, ast.Attribute) and n.func.attr in MUTATORS and isinstance(n.func.value, ast.Attribute) \
+                    and isinstance(n.func.value.value, ast.Name) and n.func.value.value.id == "cls":
+                mutated.add(n.func.value.attr)
+    reset = set()
+    for part in with_helpers(ini):
+        for n in ast.walk(part):
+            if isinstance(n, ast.Assign):
+                for t in n.targets:
+                    for e in (t.elts if isinstance(t, (ast.Tuple, ast.List)) else [t]):
+                        if isinstance(e, ast.Attribute) and isinstance(e.value, ast.Name) and e.value.id == "cls":
+                            reset.add(e.attr)
     ctx.floor(rule, "directive attributes", len(mutated), 3, (KR, pre.lineno))
     for a in sorted(mutated):
         ctx.check(a in reset, rule, f"KROMEReaction.initialize resets {a}", (KR, ini.lineno),
@@ -908,7 +940,14 @@ MUTANTS += [
         {"file": "naunet/configuration.py", "old": "        general[\"name\"] = self._name\n", "new": "        general[\"name\"] = self._name + self._stamp()\n"},
         {"file": "naunet/configuration.py", "old": "        self._network_grains = []\n\n    def _stamp", "new": "        self._network_grains = []\n        self._tag = self._stamp()\n\n    def _stamp"}], "rules": ["R2"]},
 ]
+_KINIT = "        cls.reacformat = \"idx,r,r,r,p,p,p,p,tmin,tmax,rate\"\n        cls._user_commons = []\n        cls._user_vars = []\n"
+MUTANTS += [
+    {"name": "krome-reset-helper-forgets-format", "file": KR, "old": _KINIT,
+     "new": "        cls._clear_directives()\n\n    @classmethod\n    def _clear_directives(cls) -> None:\n        cls._user_commons, cls._user_vars = [], []\n", "rules": ["R4"]},
+]
 BENIGN = [
+    {"name": "krome-reset-through-private-helper", "file": KR, "old": _KINIT,
+     "new": "        cls.reacformat = \"idx,r,r,r,p,p,p,p,tmin,tmax,rate\"\n        cls._clear_directives()\n\n    @classmethod\n    def _clear_directives(cls) -> None:\n        cls._user_commons, cls._user_vars = [], []\n"},
     {"name": "creation-time-in-private-helper-of-content", "edits": [
         {"file": "naunet/configuration.py", "old": "    @property\n    def content(self) -> str:\n",
          "new": "    def _fill_general(self, general) -> None:\n        general[\"creation_time\"] = datetime.now().strftime(\"%d/%m/%Y %H:%M:%S\")\n\n    @property\n    def content(self) -> str:\n"},
